@@ -3,14 +3,15 @@
     operations (C08_sender_honesty), RECEIVER SOUNDNESS over every sequence of socket operations with honest segments
     (C08_receiver_soundness) and their COMPOSITION for two sockets and a network that only delivers emitted packets
     (C08_two_way_prefix; its remaining hypotheses -- connect segments whole, FIN at the end of the stream, no future timestamp echo on
-    connect segments, receive buffers of 7 bytes or more, no sequence wrap -- are explicit).  The end-of-stream clause is proved only in
-    part (C08_receiver_eos_partial: the FIN is never consumed before the data that precedes it); the rest of it rests on the
-    correspondence (model = code) plus the implementation-side prefix/EOS oracle as counterexample search.
+    connect segments, receive buffers of 7 bytes or more, no sequence wrap -- are explicit).  End of stream is proved on the receive side
+    for CLOSE_WAIT (C08_receiver_eos_close_wait: in CLOSE_WAIT every byte of the peer has been delivered or is buffered, so a recv that
+    returns 0 there comes after all of them; C08_receiver_eos_partial: the FIN is never consumed before the data that precedes it); the
+    other closing states and the two-socket form rest on the correspondence (model = code) plus the implementation-side prefix/EOS oracle.
     C08_receiver_needs_more_than_honest_data_refuted and C08_two_way_prefix_needs_whole_connect_segments_refuted are concrete runs showing
     that two of the explicit hypotheses cannot be dropped (both are findings about process(), see E2ESafetyProofs.v / E2EFindingProofs.v). *)
 From Coq Require Import ZArith List Bool.
 From Nice Require Import Base.Bytes Ptcp.PtcpModel Ptcp.PtcpProofs Ptcp.ReassemblyProofs Ptcp.SockOps Ptcp.SenderInvProofs Ptcp.E2ESafetyProofs.
-From Nice Require Import Ptcp.ReceiverInvProofs Ptcp.ReceiverSoundProofs Ptcp.E2EComposeProofs Ptcp.E2ECausalProofs Ptcp.E2EExample Ptcp.E2EFindingProofs Ptcp.ReceiverEosProofs.
+From Nice Require Import Ptcp.ReceiverInvProofs Ptcp.ReceiverSoundProofs Ptcp.E2EComposeProofs Ptcp.E2ECausalProofs Ptcp.E2EExample Ptcp.E2EFindingProofs Ptcp.ReceiverEosProofs Ptcp.ReceiverCloseWaitProofs.
 Import ListNotations.
 Local Open Scope Z_scope.
 
@@ -166,3 +167,15 @@ Theorem C08_receiver_eos_partial : forall S cl s0 ops t,
   t_read t ++ rb_data (rbuf (t_sock t)) = skipn (Z.to_nat cl) S.
 Proof. exact receiver_eos_partial. Qed.
 Print Assumptions C08_receiver_eos_partial.
+
+(** END OF STREAM in CLOSE_WAIT.  Under the hypotheses of receiver soundness: whenever the socket is in CLOSE_WAIT (the peer closed its
+    sending side gracefully, we have not closed ours; FIN-ACK mode), every byte the peer's application wrote has been handed to [recv] or
+    sits, in order, in the receive buffer.  ([recv] returns 0 in that state only when the buffer is empty: then all the peer's bytes were
+    read.)  CLOSE_WAIT is only ever entered by the FIN handling of process() on a FIN whose predecessor data is complete. *)
+Theorem C08_receiver_eos_close_wait : forall S cl s0 ops t,
+  rinit cl s0 -> len S + 2 < NW -> 0 <= cl <= len S -> cl <= 61440 ->
+  Forall (honest_op S cl) ops -> run (start s0) ops = Ok t ->
+  support_fin_ack (t_sock t) = true -> state (t_sock t) = CLOSE_WAIT ->
+  t_read t ++ rb_data (rbuf (t_sock t)) = skipn (Z.to_nat cl) S.
+Proof. exact receiver_eos_close_wait. Qed.
+Print Assumptions C08_receiver_eos_close_wait.
